@@ -31,9 +31,9 @@ from .common import Driver, Infra
 CLAIM = dict(
     text="Lean 4 theorems over a model of klongpy's lexer and recursive-descent parser (every while-loop a "
          "progress-checked recursion, recursion between parser functions on fuel): every lexer function advances, "
-         "the parser never reaches `.spin`/`.outOfFuel` with fuel 8*(|t|+1) for EVERY string and character "
-         "classification, step count bounded by a quadratic in |t|, parsing is a function of (text, module) whose only "
-         "state change is the module name; pinned-tree witness `.comment(\"\")` = spin by decide. Model tied to the "
+         "the parser never reaches `.spin`/`.outOfFuel` with fuel 8*(|t|+2) for EVERY string, character "
+         "classification and monad table, step count <= 140*(|t|+2)^2, parsing is a function of (text, module) whose only "
+         "state change is a sequence of parse_module steps; pinned-tree witness `.comment(\"\")` = spin by decide. Model tied to the "
          "code by differential parsing (class, end index, error, module, AST dump) of all strings <= 3 over a "
          "38-character alphabet, token-level edits of every .kg line, and long generated strings, the real parser "
          "running under a call-count budget derived from the model's step count.",
@@ -131,6 +131,16 @@ def guarded(fn, limit):
         return ("err", e, cnt[0])
     finally:
         sys.setprofile(None)
+
+
+def plain(fn):
+    """run fn() without counting (the batch alarm still bounds it): ('ok', v, 0) / ('err', e, 0) / ('deep', None, 0)"""
+    try:
+        return ("ok", fn(), 0)
+    except (RecursionError, MemoryError):
+        return ("deep", None, 0)
+    except Exception as e:  # noqa
+        return ("err", e, 0)
 
 
 def line_budgeted(fn, limit):
@@ -322,15 +332,59 @@ def young_interp(premod):
     return k
 
 
-def run_case(text, premod, want_eval):
+def model_line(text, premod):
+    return "parse t=" + enc(text) + (" mod=" + enc(premod) if premod else "")
+
+
+def model_many(cases):
+    """pipelined model calls in small chunks (both pipe buffers stay far from full)"""
+    drv = _W.drv
+    out = []
+    CH = 32
+    for i in range(0, len(cases), CH):
+        chunk = [model_line(t, p) for t, p, _ in cases[i:i + CH]]
+        big = sum(len(c) for c in chunk) > 20000
+        if big:
+            out += [drv.ask(c) for c in chunk]
+            continue
+        drv.p.stdin.write("\n".join(chunk) + "\n")
+        drv.p.stdin.flush()
+        for _ in chunk:
+            r = drv.p.stdout.readline()
+            if not r:
+                raise Infra("kd_c12 died")
+            out.append(r.rstrip("\n"))
+    return out
+
+
+def run_case(text, premod, want_eval, mrep=None):
+    """one case; a batch alarm that fires inside it (a loop that makes no calls, or a hang of the
+    un-budgeted repeat parses) is confirmed deterministically by a line-count budget"""
+    try:
+        return run_case0(text, premod, want_eval, mrep)
+    except Alarm:
+        _W.klong = new_interp(None)
+        _W.fresh = None
+
+        def twice():
+            k2 = new_interp(premod)
+            k2.prog(text)
+            k2.prog(text)
+        if not line_budgeted(twice, 2_000_000 + 5000 * (len(text) + 1) ** 2):
+            raise
+        signal.alarm(BATCH_ALARM)
+        return dict(text=text, premod=premod, real="hang", calls=-1, mism=None,
+                    problems=[("hang", "no return within the batch alarm; confirmed by the line-count budget")])
+
+
+def run_case0(text, premod, want_eval, mrep=None):
     """one case on the model and on the real parser; returns a dict of observations"""
     out = dict(text=text, premod=premod, problems=[], mism=None)
     # ---- model
-    mrep = None
     st = None
     if _W.drv is not None:
-        line = "parse t=" + enc(text) + (" mod=" + enc(premod) if premod else "")
-        mrep = _W.drv.ask(line)
+        if mrep is None:
+            mrep = _W.drv.ask(model_line(text, premod))
         mf = common.fields(mrep)
         if mf["_"] in ("ok", "err"):
             st = int(mf["st"])
@@ -351,15 +405,7 @@ def run_case(text, premod, want_eval):
         out["problems"].append(("setup", f"{type(e).__name__}: {e}"))
     mod0 = k._module
     s0 = snap(k)
-    try:
-        tag, val, calls = guarded(lambda: k.prog(text), budget)
-    except Alarm:
-        # a loop that makes no calls at all: confirm deterministically by counting lines
-        k = _W.klong = new_interp(None)
-        hang = line_budgeted(lambda: new_interp(premod).prog(text), 50 * budget)
-        if not hang:
-            raise
-        tag, val, calls = "hang", None, -1
+    tag, val, calls = guarded(lambda: k.prog(text), budget)
     out["calls"] = calls
     real = classify_real(tag, val)
     out["real"] = real[0] + (":" + real[2] if real[2] else "")
@@ -380,7 +426,7 @@ def run_case(text, premod, want_eval):
     k = _W.klong
     try:
         k._module = mod0
-        tag2, val2, _ = guarded(lambda: k.prog(text), budget)
+        tag2, val2, _ = plain(lambda: k.prog(text))
         if (tag, tag2) == ("ok", "ok"):
             d1 = (val[0], fulldump(val[1]))
             d2 = (val2[0], fulldump(val2[1]))
@@ -393,7 +439,7 @@ def run_case(text, premod, want_eval):
     # ---- fresh interpreter, same module: history independence
     try:
         f = young_interp(premod)
-        tag3, val3, _ = guarded(lambda: f.prog(text), budget)
+        tag3, val3, _ = plain(lambda: f.prog(text))
         if (tag, tag3) == ("ok", "ok"):
             if (val[0], fulldump(val[1])) != (val3[0], fulldump(val3[1])):
                 out["problems"].append(("history", f"{fulldump(val[1])} != fresh {fulldump(val3[1])}"))
@@ -472,9 +518,10 @@ def _worker_batch(job):
     samples = []
     signal.alarm(BATCH_ALARM)
     try:
-        for text, premod, want_eval in batch:
+        mreps = model_many(batch) if _W.drv is not None else [None] * len(batch)
+        for (text, premod, want_eval), mrep in zip(batch, mreps):
             try:
-                o = run_case(text, premod, want_eval)
+                o = run_case(text, premod, want_eval, mrep)
             except Alarm:
                 anomalies.append(dict(text=text, premod=premod, problems=[("infra-alarm", "batch alarm")], mism=None))
                 break
@@ -753,7 +800,12 @@ def run(ctx):
     nproc = min(16, os.cpu_count() or 1)
     mpctx = mp.get_context("fork")
     with mpctx.Pool(nproc, initializer=_worker_init, initargs=(use_driver,)) as pool:
+        done = 0
         for bid, counters, anomalies, samples in pool.imap_unordered(_worker_batch, batches()):
+            done += 1
+            if done % 50 == 0:
+                common.log(f"C12: {done} batches, {total[0]} cases generated, {len(ctx.mismatches)} mismatches, "
+                           f"{len(ctx.oracle_failures)} oracle failures")
             for k, v in counters.items():
                 if k.startswith("max"):
                     ctx.extra[k] = round(max(ctx.extra.get(k, 0), v), 3)
@@ -767,6 +819,9 @@ def run(ctx):
     ctx.evaluations = total[0]
     ctx.extra["cases"] = total[0]
     cases = range(total[0])
+    ctx.extra["search_only"] = ["a text that does not contain `.module` leaves the parse-time module unchanged "
+                                "(theorem parse_module_effect proves: the state changes only by parse_module steps)",
+                                "result independent of the amount of fuel above the bound (not stated as a theorem)"]
     inm = ctx.hist.get("in-model", 0)
     ctx.extra["in_model_fraction"] = round(inm / max(1, len(cases)), 4)
     ctx.extra["budget"] = f"{K_CALLS} * steps_model + {K0_CALLS} profile events (cap {CAP_CALLS})"
